@@ -185,17 +185,16 @@ structure Cli where
   crLen : Option Nat      -- length of the reply's Content-Range spec when the request carries no range Squid manages
   headOnly : Bool         -- http->flags.done_copying: a HEAD request, no body is copied
   offset : Nat            -- http->out.offset
-  pieces : List Bytes     -- ghost: the body buffers handed to sendBody()/sendStartOfMessage(), in order
-  wire : Bytes            -- what was written to the socket after the header
+  pieces : List Bytes     -- the body buffers handed to sendBody()/sendStartOfMessage(), in order
   complete : Bool         -- clientReplyContext::flags.complete
-  lastChunk : Bool        -- ghost: the last-chunk was written
+  lastChunk : Bool        -- the zero-length buffer was packed too: the last-chunk was written
   ended : Option CEnd
   deriving Repr
 
-def Cli.init (fr : CFr) (keepalive : Bool) (crLen : Option Nat) : Cli := ⟨fr, keepalive, crLen, false, 0, [], [], false, false, none⟩
+def Cli.init (fr : CFr) (keepalive : Bool) (crLen : Option Nat) : Cli := ⟨fr, keepalive, crLen, false, 0, [], false, false, none⟩
 
 /-- a HEAD transaction: `done_copying` and `flags.complete` are set when the header is sent; the header is the whole message -/
-def Cli.initHead (keepalive : Bool) : Cli := ⟨.none, keepalive, none, true, 0, [], [], true, false, none⟩
+def Cli.initHead (keepalive : Bool) : Cli := ⟨.none, keepalive, none, true, 0, [], true, false, none⟩
 
 def hexUpper (d : Nat) : UInt8 := if d < 10 then UInt8.ofNat (48 + d) else UInt8.ofNat (55 + d)
 
@@ -209,6 +208,17 @@ def hexDigits (n : Nat) : Bytes := if n = 0 then [48] else hexDigitsAux n n []
 
 /-- `Http::Stream::packChunk` -/
 def packChunk (p : Bytes) : Bytes := hexDigits p.length ++ [13, 10] ++ p ++ [13, 10]
+
+/-- packChunk() of the zero-length buffer -/
+def lastChunkBytes : Bytes := [48, 13, 10, 13, 10]
+
+/-- the octets sendStartOfMessage()/sendBody() put on the socket for the buffers `pieces`: chunked replies pack every buffer
+(and the zero-length one when `last`), the others are written as they are -/
+def wireOf (fr : CFr) (pieces : List Bytes) (last : Bool) : Bytes :=
+  if fr = .chunked then (pieces.map packChunk).flatten ++ (if last then lastChunkBytes else []) else pieces.flatten
+
+/-- what was written to the client socket after the reply header -/
+def Cli.wire (c : Cli) : Bytes := wireOf c.fr c.pieces c.lastChunk
 
 inductive SStat
   | none | complete | unplanned | failed
@@ -258,8 +268,6 @@ def afterWrite (P : Params) (s : Srv) (c : Cli) : Cli :=
   | .complete => { c with ended := some (if c.keepalive then .keep else .close) }
   | _ => { c with ended := some .close }
 
-def lastChunkBytes : Bytes := [48, 13, 10, 13, 10]
-
 /-- one answer of the store to the client's pending copy(); `k` = how much of the available data it carries -/
 def cliStep (P : Params) (s : Srv) (c : Cli) (k : Nat) : Cli :=
   if c.ended.isSome then c else
@@ -267,14 +275,13 @@ def cliStep (P : Params) (s : Srv) (c : Cli) (k : Nat) : Cli :=
   let avail := s.stored.drop c.offset
   if avail ≠ [] then
     let p := avail.take (min (max k 1) (max P.reqBuf 1))
-    afterWrite P s { c with offset := c.offset + p.length, pieces := c.pieces ++ [p],
-                            wire := c.wire ++ (if c.fr = .chunked then packChunk p else p) }
+    afterWrite P s { c with offset := c.offset + p.length, pieces := c.pieces ++ [p] }   -- sendBody(): packChunk(p) or p itself
   else if s.fin.isNone then c                                    -- STORE_PENDING, nothing new: copy() stays pending
   else
     -- zero-length answer: pushStreamData() sets flags.complete; handleReply(nullptr, {}) decides about the last-chunk
     let c1 := { c with complete := true }
     if c.fr = .chunked && s.fin ≠ some .badLength then            -- mustSendLastChunk
-      afterWrite P s { c1 with wire := c1.wire ++ lastChunkBytes, lastChunk := true }
+      afterWrite P s { c1 with lastChunk := true }                  -- sendBody(empty): packChunk() writes `0 CRLF CRLF`
     else afterWrite P s c1
 
 /-! ## the whole exchange -/
